@@ -110,7 +110,7 @@ def run(tier):
             jid += 1
             nb = rng.choice([40, 64, 200, 1279, 1280, 2048, 4096]) if grp % 2 else rng.choice([16, 24, 39, 40, 1280, 4096])
             if grp == 3:
-                nb = rng.choice([65536, 70000, 131072, 100000])     # long enough for the calls to overlap whatever the load
+                nb = rng.choice([262144, 524288, 1048576, 300000])     # milliseconds per call: they overlap whatever the load
             if g % 2 == 0:
                 st = {"kind": "seeded", "seed": rng.randrange(1 << 40), "len": -1}
             else:
